@@ -170,7 +170,10 @@ C01_ClassBodies ==
   {<<x>> : x \in ClsLeaves} \cup {<<x, Cls("any")>> : x \in {Anc("wordstart"), Anc("wordend"), NotAnc("wordstart"), NotAnc("wordend")}}
     \cup {<<Cls("any"), x>> : x \in {Anc("wordstart"), Anc("wordend"), Anc("lineend"), Anc("linestart")}}
     \cup { <<In(<<Rng(<<48>>, <<57>>)>>)>>, <<In(<<Rng(<<65>>, <<90>>), Lit(<<95>>)>>)>>, <<NotIn(<<Rng(<<97>>, <<122>>), Cls("digit")>>)>>,
-           <<CiLit(<<bA>>)>>, <<CiLit(<<122>>), CiLit(<<90>>)>>, <<CiLit(<<64>>)>>, <<NotLit(<<10>>)>>, <<Cls("whitespace"), NotCls("whitespace")>> }
+           <<CiLit(<<bA>>)>>, <<CiLit(<<122>>), CiLit(<<90>>)>>, <<CiLit(<<64>>)>>, <<NotLit(<<10>>)>>, <<Cls("whitespace"), NotCls("whitespace")>>,
+           \* ranges whose bounds have different lengths: every length from the longer bound's down to the shorter's is tried
+           <<In(<<Rng(<<97>>, <<122, 122>>)>>)>>, <<In(<<Rng(<<48>>, <<57, 57>>)>>)>>, <<Cls("any"), In(<<Rng(<<97>>, <<122, 122>>)>>)>>,
+           <<NotIn(<<Rng(<<97>>, <<122, 122>>)>>)>> }
 
 (* ===================================================================== C02 *)
 C02_Bodies ==
@@ -284,7 +287,13 @@ C05_Trans ==
      [name |-> "tbv", stmts |-> <<SRet(PBin("+", PVar("value"), PBin("+", PVar("lineNumber"), PBin("+", PStr(<<58>>), PVar("columnNumber")))))>>],
      \* a return inside a loop ends the transform, not just the loop
      [name |-> "tlr", stmts |-> <<[k |-> "loop", body |-> <<SIf(PBin("<", PVar("matchLength"), PNum(2)), <<SRet(PStr(<<83>>))>>, <<>>), [k |-> "brk"]>>],
-                                  SRet(PStr(<<76>>))>>] >>
+                                  SRet(PStr(<<76>>))>>],
+     \* a loop left by break inside another loop: only the inner loop ends
+     [name |-> "tnl", stmts |-> <<SSet("s", PStr(<<>>)), SSet("i", PNum(0)),
+                                  [k |-> "loop", body |-> <<SSet("i", PBin("+", PVar("i"), PNum(1))), SIf(PBin("<", PNum(2), PVar("i")), <<[k |-> "brk"]>>, <<>>),
+                                                            [k |-> "loop", body |-> <<SSet("s", PBin("+", PVar("s"), PVar("match"))), [k |-> "brk"]>>],
+                                                            SSet("s", PBin("+", PVar("s"), PStr(<<124>>)))>>],
+                                  SRet(PVar("s"))>>] >>
 
 C05_Items ==
   { WStr(<<60>>), WStr(<<>>), WStr(<<ba, bb>>), WName("x"), WName("y"), WName("nope"),
@@ -309,7 +318,8 @@ C05_Withs ==
 (* ===================================================================== C06 *)
 C06_Withs == { <<WStr(<<>>)>>, <<WStr(<<120>>)>>, <<WStr(<<120, 121, 122>>)>>, <<WName("value"), WName("value")>>,
                <<WName("matchNumber")>>, <<WName("nosuchname")>>,      \* the last one names nothing: the match is deleted
-               <<WStr(<<195, 169>>)>>, <<WStr(<<226, 130, 172, 120>>), WName("value")>> }   \* offsets are counted in bytes, also after a multi-byte replacement
+               <<WStr(<<195, 169>>)>>, <<WStr(<<226, 130, 172, 120>>), WName("value")>>,
+               <<WName("value")>> }      \* the identity replacement: NEW still (re)creates the .vored file   \* offsets are counted in bytes, also after a multi-byte replacement
 C06_Bodies == { <<La>>, <<Lab>>, <<Loop(1, -1, FALSE, La)>>, <<Cls("any")>>, <<Lit(<<bc>>)>> }
 
 (* ===================================================================== C13 *)
